@@ -94,6 +94,11 @@ def report_a_failures(run, fails, bounded=()):
             run.violation(nm, 'all-inputs', dict(oracle=hit[2], case=hit[0], observed=str(hit[1])[:1500],
                                                  obligation=nm, solver=detail), found_input=True,
                           what=f'engine-A obligation refuted; concrete failing input from the bounded oracle: {str(hit[1])[:200]}')
+        elif label == 'structure':
+            # an obligation about the shape of the code (helper level): the code changed in a way the contract does not
+            # follow.  Without a failing input from the bounded tier this is UNDECIDED (exit 2), never a violation.
+            run.undecide(nm, 'structural (helper-level) obligation no longer holds and the bounded tier found no failing input: '
+                             'contract drift or harmless refactor; property-level obligations and oracles decide')
         else:
             run.violation(nm, 'all-inputs', dict(obligation=nm, solver=detail), found_input=False,
                           what='engine-A obligation refuted; the bounded oracle of this function found no failing input')
